@@ -149,6 +149,97 @@ void h_cw(void){ ptrdiff_t a, b, d; copy_with_2d(a, b, d); __CPROVER_assert(0, "
 UNITS.append(Unit('copy_dispatch', 'C04', CW_C, extracts=X_CW, replay=REPLAY, checks=[Check('dispatch', 'h_cw', enforce='copy_with_2d')],
                   assumed=['the four copier_n forms meet the contracts of unit copier', 'is_1d_traversable() of iterator_from_2d forwards to the locator predicate (C03)']))
 # ---------------------------------------------------------------------------------------------------------------------------------------
+# The std::copy overloads the copiers end in: pixel<T,CS>* ranges (one byte-wise std::copy), planar pointer ranges (one copy_fn per plane).
+# detail::copy_fn must be the only definition (count guard): a new specialisation is an extraction break, answered by the native replay.
+RS = R + [('R11.bytecopy0', r'std::copy\(\(unsigned char\*\)first, ?\(unsigned char\*\)last, ?\(unsigned char\*\)dst\)', 'BYTE_COPY(first, last, dst)', False),
+          ('R9.bytes', r'\(unsigned char\*\)(first|last|dst)\b', r'\1', False),
+          ('R11.bytecopy', r'std::copy\(first, last, dst\)|std::copy\(first,last,dst\)', 'ELEM_COPY(first, last, dst)', False),
+          ('R11.bytecopy2', r'std::copy\(', 'BYTE_COPY(', False),
+          ('R2.auto', r'\bauto p =', 'uintptr_t p =', False),
+          ('R9.recast', r'reinterpret_cast<boost::gil::pixel<T, CS>\*>\(p\)', 'p', False),
+          ('R9.ccast', r'\(boost::gil::pixel<T,CS>\*\)BYTE_COPY', 'BYTE_COPY', False),
+          ('R11.sfe', r'static_for_each\(first,last,dst,boost::gil::detail::copy_fn<IC1,IC2>\(\)\);', 'STATIC_FOR_EACH_COPY(first, last, dst);', False),
+          ('R11.pladd', r'return dst\+\(last-first\);', 'return PL_ADD(dst, PL_DIFF(last, first));', False)]
+X_SC = [X('copy_fn_guard', AL, r'struct copy_fn\b[^{;]*\{', count=1, rules=[], common=False),
+        X('copy_fn', AL, r'BOOST_FORCEINLINE I operator\(\)\(I first, I last, O dst\) const \{', within=r'template <typename I, typename O> struct copy_fn \{', count=1, rules=RS),
+        X('copy_px', AL, r'boost::gil::pixel<T, CS>\* dst\)\s*->\s*boost::gil::pixel<T, CS>\*\s*\{', count=1, rules=RS),
+        X('copy_cpx', AL, r'boost::gil::pixel<T,CS>\* dst\) -> boost::gil::pixel<T,CS>\*\s*\{', count=1, rules=RS),
+        X('copy_planar', AL, r'boost::gil::planar_pixel_iterator<IC2,CS> dst\) -> boost::gil::planar_pixel_iterator<IC2,CS>\s*\{', count=1, rules=RS)]
+SC_C = r"""
+#define LIM ((ptrdiff_t)1 << 40)
+typedef struct { ptrdiff_t p[5]; } pl_t;                 /* planar pointer: one element index per plane (identity layout: position k = colour k) */
+int g_calls; ptrdiff_t g_from[5], g_to[5], g_len[5]; int NCH;
+static ptrdiff_t ELEM_COPY(ptrdiff_t first, ptrdiff_t last, ptrdiff_t dst) { if (g_calls < 5) { g_from[g_calls] = first; g_to[g_calls] = dst; g_len[g_calls] = last - first; } g_calls = g_calls + 1; return dst + (last - first); }
+static uintptr_t BYTE_COPY(uintptr_t first, uintptr_t last, uintptr_t dst) { if (g_calls < 5) { g_from[g_calls] = (ptrdiff_t)first; g_to[g_calls] = (ptrdiff_t)dst; g_len[g_calls] = (ptrdiff_t)(last - first); } g_calls = g_calls + 1; return dst + (last - first); }
+/* detail::copy_fn<I,O>: copies the elements [first,last) to dst */
+ptrdiff_t copy_fn(ptrdiff_t first, ptrdiff_t last, ptrdiff_t dst)
+__CPROVER_requires(-LIM <= first && first <= last && last <= 2 * LIM && -LIM <= dst && dst <= LIM && g_calls >= 0 && g_calls < 5)
+__CPROVER_assigns(g_calls, g_from[g_calls], g_to[g_calls], g_len[g_calls])
+__CPROVER_ensures(g_calls == __CPROVER_old(g_calls) + 1 && g_from[__CPROVER_old(g_calls)] == first && g_to[__CPROVER_old(g_calls)] == dst && g_len[__CPROVER_old(g_calls)] == last - first)
+@@copy_fn@@
+/* std::copy(pixel*, pixel*, pixel*): byte addresses; exactly the bytes of the n pixels are copied and dst + n is returned */
+uintptr_t copy_px(uintptr_t first, uintptr_t last, uintptr_t dst)
+__CPROVER_requires(first <= last && last - first <= ((uintptr_t)1 << 44) && g_calls == 0)
+__CPROVER_assigns(g_calls, __CPROVER_object_whole(g_from), __CPROVER_object_whole(g_to), __CPROVER_object_whole(g_len))
+__CPROVER_ensures(g_calls == 1 && g_from[0] == (ptrdiff_t)first && g_to[0] == (ptrdiff_t)dst && g_len[0] == (ptrdiff_t)(last - first) && __CPROVER_return_value == dst + (last - first))
+@@copy_px@@
+uintptr_t copy_cpx(uintptr_t first, uintptr_t last, uintptr_t dst)
+__CPROVER_requires(first <= last && last - first <= ((uintptr_t)1 << 44) && g_calls == 0)
+__CPROVER_assigns(g_calls, __CPROVER_object_whole(g_from), __CPROVER_object_whole(g_to), __CPROVER_object_whole(g_len))
+__CPROVER_ensures(g_calls == 1 && g_from[0] == (ptrdiff_t)first && g_to[0] == (ptrdiff_t)dst && g_len[0] == (ptrdiff_t)(last - first) && __CPROVER_return_value == dst + (last - first))
+@@copy_cpx@@
+/* static_for_each over three identity-layout colour bases: op(first[k], last[k], dst[k]) for every colour k */
+#define STATIC_FOR_EACH_COPY(f, l, d) do { if (NCH > 0) copy_fn((f).p[0], (l).p[0], (d).p[0]); if (NCH > 1) copy_fn((f).p[1], (l).p[1], (d).p[1]); if (NCH > 2) copy_fn((f).p[2], (l).p[2], (d).p[2]); \
+                                          if (NCH > 3) copy_fn((f).p[3], (l).p[3], (d).p[3]); if (NCH > 4) copy_fn((f).p[4], (l).p[4], (d).p[4]); } while (0)
+static ptrdiff_t PL_DIFF(pl_t a, pl_t b) { return a.p[0] - b.p[0]; }                      /* planar_pixel_iterator::distance_to (C03 planar_it) */
+static pl_t PL_ADD(pl_t a, ptrdiff_t d) { pl_t r = a; r.p[0] += d; r.p[1] += d; r.p[2] += d; r.p[3] += d; r.p[4] += d; return r; }
+#define PLANE_OK(K) ((K) >= NCH || (g_from[K] == first.p[K] && g_to[K] == dst.p[K] && g_len[K] == last.p[0] - first.p[0] && __CPROVER_return_value.p[K] == dst.p[K] + (last.p[0] - first.p[0])))
+pl_t copy_planar(pl_t first, pl_t last, pl_t dst)
+__CPROVER_requires(1 <= NCH && NCH <= 5 && g_calls == 0)
+__CPROVER_requires(-LIM <= first.p[0] && first.p[0] <= LIM && -LIM <= first.p[1] && first.p[1] <= LIM && -LIM <= first.p[2] && first.p[2] <= LIM && -LIM <= first.p[3] && first.p[3] <= LIM && -LIM <= first.p[4] && first.p[4] <= LIM)
+__CPROVER_requires(-LIM <= dst.p[0] && dst.p[0] <= LIM && -LIM <= dst.p[1] && dst.p[1] <= LIM && -LIM <= dst.p[2] && dst.p[2] <= LIM && -LIM <= dst.p[3] && dst.p[3] <= LIM && -LIM <= dst.p[4] && dst.p[4] <= LIM)
+__CPROVER_requires(-LIM <= last.p[0] && last.p[0] <= 2 * LIM && 0 <= last.p[0] - first.p[0] && last.p[0] - first.p[0] <= LIM)
+__CPROVER_requires(-LIM <= last.p[1] && last.p[1] <= 2 * LIM && -LIM <= last.p[2] && last.p[2] <= 2 * LIM && -LIM <= last.p[3] && last.p[3] <= 2 * LIM && -LIM <= last.p[4] && last.p[4] <= 2 * LIM)
+__CPROVER_requires(last.p[1] - first.p[1] == last.p[0] - first.p[0] && last.p[2] - first.p[2] == last.p[0] - first.p[0] && last.p[3] - first.p[3] == last.p[0] - first.p[0] && last.p[4] - first.p[4] == last.p[0] - first.p[0])
+__CPROVER_assigns(g_calls, __CPROVER_object_whole(g_from), __CPROVER_object_whole(g_to), __CPROVER_object_whole(g_len))
+__CPROVER_ensures(g_calls == NCH && PLANE_OK(0) && PLANE_OK(1) && PLANE_OK(2) && PLANE_OK(3) && PLANE_OK(4))   /* every plane: its n elements, once, to the same plane of dst */
+@@copy_planar@@
+#ifndef VERIF_NATIVE
+void h_fn(void){ ptrdiff_t a, b, d; copy_fn(a, b, d); __CPROVER_assert(0, "VACUITY"); }
+void h_px(void){ uintptr_t a, b, d; copy_px(a, b, d); __CPROVER_assert(0, "VACUITY"); }
+void h_cpx(void){ uintptr_t a, b, d; copy_cpx(a, b, d); __CPROVER_assert(0, "VACUITY"); }
+void h_planar(void){ pl_t a, b, d; copy_planar(a, b, d); __CPROVER_assert(0, "VACUITY"); }
+#endif
+#if 0  /* guard only (counted, never compiled) */
+@@copy_fn_guard@@
+#endif
+"""
+REPLAY_SC = r"""
+#include <boost/gil.hpp>
+#include "vreplay.hpp"
+using namespace boost::gil;
+template <typename SrcImg, typename DstImg> static long run(const char* what) { long bad = 0;
+  for (int W = 0; W <= 7; W++) for (int H = 0; H <= 4; H++) { SrcImg s(W, H); DstImg d(W, H); using ch_t = typename channel_type<SrcImg>::type; unsigned v = 1;
+    for (int y = 0; y < H; y++) for (int x = 0; x < W; x++) for (int c = 0; c < (int)num_channels<SrcImg>::value; c++) { view(s)(x, y)[c] = (ch_t)(v * 257u); view(d)(x, y)[c] = (ch_t)0x77; v++; }
+    copy_pixels(const_view(s), view(d));
+    for (int y = 0; y < H; y++) for (int x = 0; x < W; x++) for (int c = 0; c < (int)num_channels<SrcImg>::value; c++) if (!(view(d)(x, y)[c] == view(s)(x, y)[c])) { if (!bad) std::printf("%s %dx%d: pixel (%d,%d) channel %d differs after copy_pixels\n", what, W, H, x, y, c); bad++; }
+    if (W > 2 && H > 1) { DstImg d2(W, H); fill_pixels(view(d2), typename DstImg::value_type()); auto sv = subimage_view(const_view(s), 1, 0, W - 2, H); auto dv = subimage_view(view(d2), 1, 0, W - 2, H); copy_pixels(sv, dv);
+      for (int y = 0; y < H; y++) for (int x = 0; x < W - 2; x++) for (int c = 0; c < (int)num_channels<SrcImg>::value; c++) if (!(dv(x, y)[c] == sv(x, y)[c])) { if (!bad) std::printf("%s %dx%d sub-view: pixel (%d,%d) channel %d differs\n", what, W, H, x, y, c); bad++; } } }
+  return bad; }
+int main(int argc, char** argv){ vr::parse(argc, argv); long bad = 0;
+  bad += run<rgb8_planar_image_t, rgb8_planar_image_t>("rgb8_planar -> rgb8_planar"); bad += run<rgb16_planar_image_t, rgb16_planar_image_t>("rgb16_planar -> rgb16_planar");
+  bad += run<rgba32f_planar_image_t, rgba32f_planar_image_t>("rgba32f_planar -> rgba32f_planar"); bad += run<cmyk16_planar_image_t, cmyk16_planar_image_t>("cmyk16_planar -> cmyk16_planar");
+  bad += run<rgb16_image_t, rgb16_image_t>("rgb16 -> rgb16"); bad += run<rgb16_image_t, rgb16_planar_image_t>("rgb16 -> rgb16_planar"); bad += run<rgb16_planar_image_t, rgb16_image_t>("rgb16_planar -> rgb16");
+  bad += run<gray32f_image_t, gray32f_image_t>("gray32f -> gray32f"); bad += run<rgba8_image_t, rgba8_image_t>("rgba8 -> rgba8");
+  if (bad) REPRODUCED("%ld channel values differ from the per-pixel loop after copy_pixels", bad);
+  NOT_REPRODUCED("copy_pixels equals the per-pixel loop for planar / interleaved 8, 16 and 32-bit views"); }
+"""
+UNITS.append(Unit('std_copy', 'C04', SC_C, extracts=X_SC, replay=REPLAY_SC,
+                  checks=[Check('copy_fn', 'h_fn', enforce='copy_fn'), Check('pixel_ptr', 'h_px', enforce='copy_px'), Check('const_pixel_ptr', 'h_cpx', enforce='copy_cpx'),
+                          Check('planar', 'h_planar', enforce='copy_planar', replace=['copy_fn'])],
+                  assumed=['std::copy on raw element / byte pointers copies [first,last) to dst and returns dst + n (libstdc++)', 'static_for_each visits the planes of identity-layout planar pointers position by position',
+                           'planar pointer difference is the difference of plane 0 (C03 planar_it)']))
+# ---------------------------------------------------------------------------------------------------------------------------------------
 # detail::fill_aux for planar iterators: one std::fill per plane, the planes paired with the fill value's channels BY COLOUR
 X_FA = [X('fill_aux_planar', AL, r'void fill_aux\(It first, It last, P const& p, std::true_type\)\s*\{', count=1,
           rules=[('R11.static_for_each', r'static_for_each\(first, last, p, std_fill_t\(\)\);', 'STATIC_FOR_EACH_FILL(first, last, p);', True)])]
